@@ -12,6 +12,29 @@ def load_ir(R):
         R.notes.append('functions outside the IR subset: %r' % bad[:10])
 
 
+def avr_pass(R, names):
+    """the same contracts on the IR of the same sources compiled for AVR (16-bit int and pointers, int16_t = int, int32_t = long):
+    obligations carry the suffix @avr; functions whose contract or environment model fixes 64-bit pointer sorts are listed, not
+    decided, in this pass (they stay decided for the x86-64 model)"""
+    t = time.time()
+    if getattr(R, 'mod_avr', None) is None:
+        R.mod_avr = ir.load_ll(build.logic_ll(target='avr'))
+    saved = R.out_of_reach
+    R.out_of_reach = []
+    from vc import check
+    try:
+        obs = check.verify_functions(R, names, mod=R.mod_avr, tag='avr')
+    finally:
+        skipped = R.out_of_reach
+        R.out_of_reach = saved
+    R.notes.append('AVR pass (16-bit int / pointers): %d functions verified, %d not decided in this pass: %r' % (
+        len(names) - len(skipped), len(skipped), [(n[:60], r[:60]) for n, r in skipped][:6]))
+    R.assumptions.append('data model: every obligation is discharged for x86-64 (LP64); the functions marked [avr] in functions_under_contract are '
+                         'verified a second time on the IR compiled with --target=avr (16-bit int, 16-bit pointers), obligations suffixed @avr')
+    R.log('AVR pass: %d functions, %d obligations (%.1fs)' % (len(names), len(obs), time.time() - t))
+    return obs
+
+
 def ex_for(R):
     return symex.Executor(R.mod, R.reg.REG)
 
